@@ -156,7 +156,7 @@ def corrupt(seed, c):
                 meta["ovni.require"] = [tag, r]
             elif kind == "mcv":
                 b = evs[p - 1]
-                evs[p - 1] = b[:1] + q.encode("latin1") + b[4:]
+                evs[p - 1] = b[:1] + mcv_bytes(q) + b[4:]
             elif kind == "pay":
                 e = dict(st["evs"][p - 1])
                 e["sz"] = q
@@ -230,6 +230,15 @@ def compare(ck, what, exp, er, sig, bundle):
     else:
         raise core.MachineryError("unknown verdict %r exported by the specification" % exp)
     return True
+
+
+def mcv_bytes(q):
+    """three code bytes of a substitute; "~xyz" / "^xyz" = xyz with bit 7 of the value / category byte set"""
+    if len(q) == 4 and q[0] in "~^":
+        b = bytearray(q[1:].encode("latin1"))
+        b[2 if q[0] == "~" else 1] |= 0x80
+        return bytes(b)
+    return q.encode("latin1")
 
 
 def describe(c):
